@@ -4082,7 +4082,10 @@ class Client:
                                 rc = self._send_pubrel(m.mid)
                             if rc != MQTTErrorCode.MQTT_ERR_SUCCESS:
                                 return rc
-                    self.loop_write()  # Process outgoing messages that have just been queued up
+                    rc = self.loop_write()  # Process outgoing messages that have just been queued up
+                    if rc != MQTTErrorCode.MQTT_ERR_SUCCESS:
+                        # the connection is gone: leave the remaining messages for the next one
+                        return rc
 
             return rc
         elif result > 0 and result < 6:
